@@ -24,7 +24,7 @@ ASSUMPTIONS = [
     "a call is REQUIRED when an exposed attribute of the entity has no admissible value in common before and after the frame; FORBIDDEN when every record of the frame is byte-identical to the entity's previous report, after unsubscribe, with a foreign identifier, and for AC state-only subscribers on zone-only frames; everything else MAY notify",
     "how many times a required call is made for one frame is not constrained (a zone change reaches the AC's subscribers once per zone)",
 ]
-PROBES = ["c12.identical_repeat", "c12.required_call", "c12.unsubscribed", "c12.raising", "c12.twin", "c12.state_only_zone_frame", "c12.unexposed_change", "c12.version"]
+PROBES = ["c12.change_inside_callback", "c12.identical_repeat", "c12.required_call", "c12.unsubscribed", "c12.raising", "c12.twin", "c12.state_only_zone_frame", "c12.unexposed_change", "c12.version"]
 
 
 def budget(tier: str) -> int:
@@ -57,6 +57,20 @@ def generate(rng, index: int, tier: str) -> dict:
             subs.append({"name": f"z{z['zone']}", "target": ["zone", z["zone"]], "method": "subscribe", "sub_yields": rng.choice([0, 0, 1])})
         if rng.random() < 0.2:
             subs.append({"name": f"z{z['zone']}R", "target": ["zone", z["zone"]], "method": "subscribe", "raises": True})
+    if rng.random() < 0.35:
+        # subscription changes made from inside a callback, while a notification round is in progress: a one-shot
+        # subscriber removes itself, another one adds a new subscriber to the same entity
+        for _ in range(rng.choice([1, 1, 2, 3])):
+            tg = rng.choice([["zone", z["zone"]] for z in inst["zones"]] + [["ac", a["ac"]] for a in inst["acs"]] + [["at"]])
+            base = {"zone": "z%d", "ac": "ac%d", "at": "at"}[tg[0]] % tuple(tg[1:])
+            if any(x["name"] in (base + "O", base + "P") for x in subs):
+                continue
+            if rng.random() < 0.6:
+                subs.append({"name": base + "O", "target": tg, "method": "subscribe", "sub_yields": rng.choice([0, 0, 1]),
+                             "then": [{"name": base + "O", "target": tg, "method": "unsubscribe"}]})
+            else:
+                subs.append({"name": base + "P", "target": tg, "method": "subscribe",
+                             "then": [{"name": base + "N", "target": tg, "method": "subscribe"}]})
     if rng.random() < 0.8:
         subs.append({"name": "at", "target": ["at"], "method": "subscribe"})
     if rng.random() < 0.2:
@@ -133,6 +147,13 @@ def execute(sc: dict) -> dict:
         if kind == "user.subscribe":
             nm, meth, tgt = f["k"], f["m"], tuple(f["target"])
             sub_target[nm] = tgt
+            if f.get("inside"):
+                # changed while a notification round was in progress: whether the subscriber concerned takes part in the rest
+                # of this round is not defined; everybody else's calls still are
+                probes["c12.change_inside_callback"] = 1
+                if window is not None:
+                    window["volatile"].add(nm)
+                    window["active"].setdefault(nm, set()).add((tgt, "general"))
             st = active.setdefault(nm, set())
             if meth == "subscribe":
                 st.add((tgt, "general"))
@@ -165,7 +186,7 @@ def execute(sc: dict) -> dict:
                 window["identical"] = window["identical"] and _all_identical(readings, last_rec)
                 window["frames"] += 1
             else:
-                window = {"seq": seq, "t": t, "readings": readings, "before": before, "after": after, "calls": [], "frames": 1,
+                window = {"seq": seq, "t": t, "readings": readings, "before": before, "after": after, "calls": [], "frames": 1, "volatile": set(),
                           "active": {k: set(v) for k, v in active.items()}, "identical": _all_identical(readings, last_rec)}
                 windows.append(window)
             for r in readings:
@@ -191,7 +212,7 @@ def execute(sc: dict) -> dict:
             subs_of = act.get(nm, set())
             if nm.endswith("R"):
                 probes["c12.raising"] = 1
-            if not subs_of:
+            if not subs_of and nm not in win["volatile"]:
                 V.append(viol("C12.called_after_unsubscribe", {"sub": nm, "t": win["t"]}))
                 break
             tgt = sub_target[nm]
@@ -236,6 +257,8 @@ def execute(sc: dict) -> dict:
                         need.append((nm, f"zone {z} of ac {owner[z]} changed"))
         for nm, why in need:
             probes["c12.required_call"] = 1
+            if nm in win["volatile"]:
+                continue
             if nm not in called:
                 V.append(viol("C12.missed_notification", {"sub": nm, "why": why, "t": win["t"], "frame": sorted(kinds), "called": sorted(called)},
                               raising_present=any(x.endswith("R") for x in act if act[x])))
